@@ -162,6 +162,9 @@ func (g *progGen) imm(bits int) string {
 }
 
 func (g *progGen) mem() string {
+	if g.r.Chance(1, 4) {
+		return "[" + g.addr() + "]"
+	}
 	if len(g.equs) > 0 && g.r.Chance(1, 4) {
 		return "[" + pick(g.r, g.equs) + "]"
 	}
@@ -193,6 +196,75 @@ func (g *progGen) mem() string {
 	}
 }
 
+// atom: a constant, an EQU name (possibly defined further down the file), rarely a label or $.
+func (g *progGen) atom() string {
+	r := g.r
+	switch r.weighted([]int{5, 4, 1, 1, 1}) {
+	case 0:
+		if r.Chance(1, 2) {
+			return fmt.Sprint(r.Range(0, 64))
+		}
+		return fmt.Sprintf("0x%x", r.Intn(0x1000))
+	case 1:
+		if len(g.equs) > 0 {
+			return pick(r, g.equs)
+		}
+		return fmt.Sprint(r.Range(1, 9))
+	case 2:
+		if len(g.labels) > 0 {
+			return pick(r, g.labels)
+		}
+		return "1"
+	case 3:
+		return "$"
+	default:
+		return "'" + string(rune('A'+r.Intn(26))) + "'"
+	}
+}
+
+// expr: an arithmetic expression with several operators of mixed sign / precedence and
+// optional parentheses, e.g. BASE+4-8, (A+2)*3-1, 2*8+1-3, $+2-1.
+func (g *progGen) expr(depth int) string {
+	r := g.r
+	n := r.Range(1, 4)
+	var sb strings.Builder
+	for i := 0; i < n; i++ {
+		if i > 0 {
+			sb.WriteString(pick(r, []string{"+", "-", "+", "-", "*", "/"}))
+		}
+		if depth < 2 && r.Chance(1, 5) {
+			sb.WriteString("(" + g.expr(depth+1) + ")")
+		} else {
+			sb.WriteString(g.atom())
+		}
+	}
+	return sb.String()
+}
+
+// addr: the inside of a memory operand with a base register and a multi-operator displacement
+func (g *progGen) addr() string {
+	r := g.r
+	base := pick(r, base16[:4])
+	if g.bits32 {
+		base = pick(r, regs32)
+	}
+	tail := ""
+	for i, n := 0, r.Range(1, 3); i < n; i++ {
+		t := fmt.Sprint(r.Range(1, 60))
+		if len(g.equs) > 0 && r.Chance(1, 4) {
+			t = pick(r, g.equs)
+		}
+		tail += pick(r, []string{"+", "-"}) + t
+	}
+	if g.bits32 && r.Chance(1, 5) {
+		tail += "+" + pick(r, regs32[:4])
+	}
+	if r.Chance(1, 6) {
+		return fmt.Sprint(r.Range(1, 60)) + "+" + base + tail
+	}
+	return base + tail
+}
+
 func (g *progGen) target() string {
 	if len(g.labels) == 0 {
 		return "0"
@@ -204,7 +276,7 @@ func (g *progGen) target() string {
 // does not support is still a legal workload item (it takes the log-and-continue path).
 func (g *progGen) stmt() string {
 	r := g.r
-	switch r.weighted([]int{14, 10, 6, 6, 4, 8, 4, 4, 6, 8, 4, 3, 3, 3}) {
+	switch r.weighted([]int{14, 10, 6, 6, 4, 8, 4, 4, 6, 8, 4, 7, 3, 3}) {
 	case 0: // MOV reg, imm
 		switch r.Intn(3) {
 		case 0:
@@ -308,6 +380,20 @@ func (g *progGen) stmt() string {
 		}
 		return "\tALIGNB\t" + pick(r, []string{"2", "4", "8", "16"})
 	case 11: // expressions with EQU / $ / labels
+		if r.Chance(1, 2) {
+			switch r.Intn(5) {
+			case 0:
+				return "\tMOV\t" + pick(r, regs16) + "," + g.expr(0)
+			case 1:
+				return "\tDW\t" + g.expr(0) + ", " + g.expr(0)
+			case 2:
+				return "\tDD\t" + g.expr(0)
+			case 3:
+				return "\tADD\t" + pick(r, regs16) + "," + g.expr(0)
+			default:
+				return "\tDB\t" + g.expr(1) + ", " + fmt.Sprint(r.Intn(200))
+			}
+		}
 		if len(g.equs) > 0 && r.Chance(1, 2) {
 			e := pick(r, g.equs)
 			return "\tMOV\tAX," + e + "*" + fmt.Sprint(r.Range(1, 4)) + "+" + fmt.Sprint(r.Intn(9))
@@ -377,19 +463,37 @@ func drawGenOpts(r *RNG) genOpts {
 // genBody makes the statement list (labels, EQUs, GLOBALs, statements) for given options.
 func genBody(r *RNG, o genOpts) (body []string, hasEqu, hasGlobal bool) {
 	g := &progGen{r: r, used: map[string]bool{}, bits32: o.Bits32}
+	var equNames []string
 	for i := 0; i < o.NEqu; i++ {
 		n := strings.ToUpper(g.newName())
 		g.used[n] = true
+		equNames = append(equNames, n)
+	}
+	var lateEqus []string // EQU lines placed after the statements that use them
+	for i, n := range equNames {
 		var val string
-		if i > 0 && r.Chance(1, 3) {
-			val = g.equs[r.Intn(len(g.equs))] + "+" + fmt.Sprint(r.Range(1, 64)) // EQU chain
-		} else {
+		switch {
+		case i > 0 && r.Chance(1, 3): // chain over an earlier name
+			val = equNames[r.Intn(i)] + "+" + fmt.Sprint(r.Range(1, 64))
+		case r.Chance(1, 4): // expression over any name, including names defined further down
+			val = pick(r, equNames) + pick(r, []string{"+", "-"}) + fmt.Sprint(r.Range(1, 9)) + pick(r, []string{"+", "-", "*"}) + fmt.Sprint(r.Range(1, 9))
+			if strings.HasPrefix(val, n+"+") || strings.HasPrefix(val, n+"-") {
+				val = fmt.Sprintf("0x%04x", r.Intn(0x10000)) // no self reference
+			}
+		case r.Chance(1, 5):
+			val = fmt.Sprintf("(%d+%d)*%d-%d", r.Intn(9), r.Intn(9), r.Range(1, 5), r.Intn(9))
+		default:
 			val = fmt.Sprintf("0x%04x", r.Intn(0x10000))
 		}
-		body = append(body, n+"\tEQU\t"+val)
-		g.equs = append(g.equs, n)
+		line := n + "\tEQU\t" + val
+		if r.Chance(1, 6) {
+			lateEqus = append(lateEqus, line)
+		} else {
+			body = append(body, line)
+		}
 		hasEqu = true
 	}
+	g.equs = equNames
 	for i := 0; i < o.NLabels; i++ {
 		g.labels = append(g.labels, g.newName())
 	}
@@ -447,6 +551,7 @@ func genBody(r *RNG, o genOpts) (body []string, hasEqu, hasGlobal bool) {
 	for _, l := range pending {
 		body = append(body, l+":")
 	}
+	body = append(body, lateEqus...)
 	return
 }
 
